@@ -15,6 +15,10 @@ pub struct DocCase {
     /// rejection clause: insert junk line `junk.1` before line `junk.0`
     #[serde(default)]
     pub junk: Option<(usize, usize)>,
+    /// field-name alphabet clause: a one-field document whose name contains this character (code point) at
+    /// position 0 (`true`) or 1 (`false`); `v` and `skel` are ignored
+    #[serde(default, skip_serializing_if = "Option::is_none")]
+    pub name_char: Option<(u32, bool)>,
 }
 
 pub const JUNK: [&str; 4] = ["junk", "junk more", "-x: y", "é: v"];
@@ -98,7 +102,7 @@ impl Prop for C03 {
         "exploration"
     }
     fn rule(&self, _t: Tier) -> String {
-        "documents are choice vectors over the layout slots of a PxF skeleton (P,F in 1..3): every vector with at most k deviations from the simplest layout is rendered (text + intended reading by construction) and read with the strict reader; vectors whose deviation has no effect on the text are skipped, so every evaluated document is distinct; rejection clause: every k<=1 document x every line position x 4 junk lines; non-trivial = document with at least one deviation".into()
+        "documents are choice vectors over the layout slots of a PxF skeleton (P,F in 1..3): every vector with at most k deviations from the simplest layout is rendered (text + intended reading by construction) and read with the strict reader; vectors whose deviation has no effect on the text are skipped, so every evaluated document is distinct; rejection clause: every k<=1 document x every line position x 4 junk lines; field-name alphabet clause: every printable ASCII character except ':' inside a field name, and every one except '-' and '#' as its first character; non-trivial = document with at least one deviation".into()
     }
     fn bounds(&self, t: Tier) -> Value {
         let mut per = vec![];
@@ -115,21 +119,36 @@ impl Prop for C03 {
         ]
     }
     fn n_shards(&self, _t: Tier) -> usize {
-        doc_shards(true).len()
+        doc_shards(true).len() + 1
     }
     fn explore(&self, t: Tier, shard: usize, f: &mut dyn FnMut(&DocCase) -> Verdict) {
+        if shard == doc_shards(true).len() {
+            // every printable ASCII character as a field-name character (first position where deb822 allows it)
+            let sk = Skel { paras: 1, fields: 1 };
+            for cp in 33u32..127 {
+                let ch = char::from_u32(cp).unwrap();
+                if ch == ':' {
+                    continue;
+                }
+                f(&DocCase { skel: sk, v: vec![], junk: None, name_char: Some((cp, false)) });
+                if ch != '-' && ch != '#' {
+                    f(&DocCase { skel: sk, v: vec![], junk: None, name_char: Some((cp, true)) });
+                }
+            }
+            return;
+        }
         match doc_shards(true)[shard] {
             DocShard::Base(sk) => {
                 let m = menus(sk);
                 kdev_shard(&m, k_for(t, sk), None, &mut |v| {
-                    f(&DocCase { skel: sk, v: v.to_vec(), junk: None });
+                    f(&DocCase { skel: sk, v: v.to_vec(), junk: None, name_char: None });
                 });
             }
             DocShard::First(sk, i) => {
                 let m = menus(sk);
                 kdev_shard(&m, k_for(t, sk), Some(i), &mut |v| {
                     if render(sk, v).is_some() {
-                        f(&DocCase { skel: sk, v: v.to_vec(), junk: None });
+                        f(&DocCase { skel: sk, v: v.to_vec(), junk: None, name_char: None });
                     }
                 });
             }
@@ -141,7 +160,7 @@ impl Prop for C03 {
                         for pos in 0..=n {
                             for j in 0..JUNK.len() {
                                 if insert_line(&d.text, pos, JUNK[j]).is_some() {
-                                    f(&DocCase { skel: sk, v: v.to_vec(), junk: Some((pos, j)) });
+                                    f(&DocCase { skel: sk, v: v.to_vec(), junk: Some((pos, j)), name_char: None });
                                 }
                             }
                         }
@@ -155,6 +174,25 @@ impl Prop for C03 {
         }
     }
     fn check(&self, c: &DocCase, st: &mut Stats) -> Vec<Viol> {
+        if let Some((cp, first)) = c.name_char {
+            let ch = char::from_u32(cp).unwrap_or('A');
+            let name = if first { format!("{}x", ch) } else { format!("X{}y", ch) };
+            let text = format!("{}: v\nOther: w\n", name);
+            st.nontrivial += 1;
+            return match guard(budget_for(text.len()), || Deb822::from_str(&text).map(|d| read_items(&d))) {
+                Ok(Ok(items)) => {
+                    let want = vec![vec![(name.clone(), "v".to_string()), ("Other".to_string(), "w".to_string())]];
+                    if items == want {
+                        st.outcome("name-character-ok");
+                        vec![]
+                    } else {
+                        vec![viol("field-name-characters", format!("text {:?}: got {:?}", text, items))]
+                    }
+                }
+                Ok(Err(e)) => vec![viol("field-name-characters", format!("text {:?} rejected: {}", text, e.to_string().replace('\n', "; ")))],
+                Err(p) => vec![viol("panic", panic_detail(&p))],
+            };
+        }
         let Some(doc) = render(c.skel, &c.v) else {
             return vec![];
         };
@@ -263,7 +301,7 @@ pub fn shrink_doc(c: &DocCase) -> Vec<DocCase> {
             let mut v = c.v.clone();
             v[i] = 0;
             if render(c.skel, &v).is_some() {
-                out.push(DocCase { skel: c.skel, v, junk: c.junk });
+                out.push(DocCase { skel: c.skel, v, junk: c.junk, name_char: None });
             }
         }
     }
@@ -272,7 +310,7 @@ pub fn shrink_doc(c: &DocCase) -> Vec<DocCase> {
             let mut v = c.v.clone();
             v[i] = smaller;
             if render(c.skel, &v).is_some() {
-                out.push(DocCase { skel: c.skel, v, junk: c.junk });
+                out.push(DocCase { skel: c.skel, v, junk: c.junk, name_char: None });
             }
         }
     }
@@ -281,7 +319,7 @@ pub fn shrink_doc(c: &DocCase) -> Vec<DocCase> {
         if sk.paras * sk.fields < c.skel.paras * c.skel.fields {
             if let Some(v) = transplant(c, sk) {
                 if render(sk, &v).is_some() {
-                    out.insert(0, DocCase { skel: sk, v, junk: c.junk });
+                    out.insert(0, DocCase { skel: sk, v, junk: c.junk, name_char: None });
                 }
             }
         }
